@@ -251,6 +251,9 @@ class DegChecker:
             self._ret_tuple = [self.deg(x, env) for x in s.value.elts]
         elif isinstance(s, ast.Return):
             self._ret = join(self._ret, self.deg(s.value, env)) if s.value is not None else self._ret
+        elif isinstance(s, ast.If) and _is_none_test(s.test, env) is not None:
+            # a value that carries a shift degree is not None: only one branch is live
+            self.block(s.orelse if _is_none_test(s.test, env) else s.body, env)
         elif isinstance(s, ast.If):
             self.deg(s.test, env)
             e1, e2 = dict(env), dict(env)
@@ -284,6 +287,18 @@ class DegChecker:
             self.block(s.finalbody, env)
         elif isinstance(s, (ast.Raise, ast.Pass, ast.Assert, ast.Import, ast.ImportFrom, ast.FunctionDef, ast.Delete, ast.Global, ast.Break, ast.Continue)):
             pass
+
+
+def _is_none_test(test, env):
+    """`x is None` -> True / `x is not None` -> False when x is a typed (non-None) value, else None."""
+    if isinstance(test, ast.Compare) and len(test.ops) == 1 and isinstance(test.left, ast.Name) and isinstance(test.comparators[0], ast.Constant) and test.comparators[0].value is None:
+        d = env.get(test.left.id)
+        if d is not None and d not in (TOP, POLY) and d != 0:
+            if isinstance(test.ops[0], ast.Is):
+                return True
+            if isinstance(test.ops[0], ast.IsNot):
+                return False
+    return None
 
 
 def _numeric_const(e):
